@@ -18,7 +18,6 @@
 -/
 import EG.Lemmas.ImageRawImage
 import EG.Lemmas.ImageRawRows
-import EG.Props.C16
 namespace EG.C09
 open EG EG.Raw EG.Img
 
